@@ -9,6 +9,7 @@ package main
 
 import (
 	"fmt"
+	"runtime"
 	"strings"
 	"sync"
 	"sync/atomic"
@@ -493,16 +494,31 @@ func runBurst(w *world, j *judge, cs childSpec) error {
 		}
 		parked, release := make(chan struct{}), make(chan struct{})
 		armed := true
+		park := func() {
+			armed = false
+			close(parked)
+			select {
+			case <-release:
+			case <-time.After(60 * time.Second):
+			}
+		}
 		w.keyEvMu.Lock()
-		w.onKeyEv = func(idx int, snap string, dirty bool) {
-			if armed && strings.Contains(snap, a.Key) {
-				armed = false
-				close(parked)
-				select {
-				case <-release:
-				case <-time.After(60 * time.Second):
+		if round%2 == 0 {
+			// park the first import at the end (inside its api.keys.updated hook)
+			w.onKeyEv = func(idx int, snap string, dirty bool) {
+				if armed && strings.Contains(snap, a.Key) {
+					park()
 				}
 			}
+			w.b.Count("burst_parked_in_updated_hook", 1)
+		} else {
+			// park the first import while it reads the setting (inside the config getter's refresh)
+			w.onRefetch = func(option string) {
+				if armed && option == api.CfgAPIKeys && strings.Contains(ownStack(), "api.updateAPIKeys") {
+					park()
+				}
+			}
+			w.b.Count("burst_parked_in_getter", 1)
 		}
 		w.keyEvMu.Unlock()
 		mk := w.mark()
@@ -519,7 +535,7 @@ func runBurst(w *world, j *judge, cs childSpec) error {
 		err := w.guarded("SetConfigOption(core/apiKeys)", func() error { return config.SetConfigOption(api.CfgAPIKeys, cfgStrings(l2)) })
 		close(release)
 		w.keyEvMu.Lock()
-		w.onKeyEv = nil
+		w.onKeyEv, w.onRefetch = nil, nil
 		w.keyEvMu.Unlock()
 		if err != nil {
 			return err
@@ -552,6 +568,114 @@ func runBurst(w *world, j *judge, cs childSpec) error {
 				}
 			}
 		}
+	}
+	return nil
+}
+
+// ownStack returns the stack of the calling goroutine.
+func ownStack() string {
+	buf := make([]byte, 8192)
+	return string(buf[:runtime.Stack(buf, false)])
+}
+
+// runOverlap: development mode is switched off (or reset); then two requests overlap — the
+// first one is parked inside the refresh of the api package's concurrency-safe devMode
+// getter (config.get.refetch), the second one is sent meanwhile. Whatever the second one
+// does (wait for the refresh or not), it must be judged by the setting in force: refused.
+func runOverlap(w *world, j *judge, cs childSpec) error {
+	r := vlib.NewRand(cs.Seed, "C12/overlap", uint64(cs.Shard))
+	targets := []target{{"/verif/p/4/4", mTarget{"plain", mSelf, mSelf}}, {"/verif/p/3/3", mTarget{"plain", mAdmin, mAdmin}}, {"/verif/p/2/4", mTarget{"plain", mUser, mSelf}},
+		{"/api/v1/verif/e/4/3", mTarget{"endpoint", mSelf, mAdmin}}}
+	for round := 0; round < cs.N; round++ {
+		if err := w.setDev(true); err != nil {
+			return err
+		}
+		// use the getter while development mode is on (it caches "true")
+		for k := 0; k < 3; k++ {
+			t := vlib.Pick(r, targets...)
+			w.b.Count("table_cells_planned", 1)
+			j.tableCell("overlap-dev-on", prepared{cv: credVal{Tag: "none"}, ok: true}, t, methodVars[r.Intn(5)], "")
+		}
+		var err error
+		if round%2 == 0 {
+			err = w.setDev(false)
+		} else {
+			err = w.resetDev()
+		}
+		if err != nil {
+			return err
+		}
+		parked, release := make(chan struct{}), make(chan struct{})
+		armed := true
+		w.keyEvMu.Lock()
+		w.onRefetch = func(option string) {
+			if armed && option == config.CfgDevModeKey && strings.Contains(ownStack(), "api.(*mainHandler).handle") {
+				armed = false
+				close(parked)
+				select {
+				case <-release:
+				case <-time.After(60 * time.Second):
+				}
+			}
+		}
+		w.keyEvMu.Unlock()
+		t1, t2 := vlib.Pick(r, targets...), vlib.Pick(r, targets...)
+		mv1, mv2 := methodVars[r.Intn(5)], methodVars[r.Intn(5)]
+		sp1 := specFor(prepared{cv: credVal{Tag: "none"}, ok: true}, t1, mv1, "")
+		sp2 := specFor(prepared{cv: credVal{Tag: "none"}, ok: true}, t2, mv2, "")
+		e1, e2 := w.model.expect(sp1, time.Now()), w.model.expect(sp2, time.Now())
+		d1, d2 := make(chan *obs, 1), make(chan *obs, 1)
+		go func() { d1 <- w.doConcurrent(sp1) }()
+		select {
+		case <-parked:
+		case o1 := <-d1:
+			// the getter did not have to refresh (nothing to park on): judge and go on
+			d1 <- o1
+		case <-time.After(60 * time.Second):
+			close(release)
+			return errInconclusive("overlap: first request neither parked nor returned within 60s")
+		}
+		go func() { d2 <- w.doConcurrent(sp2) }()
+		// the second request either completes, or waits for the refresh of the first one
+		// (parked on the getter's mutex): both are fine, then the first one is released
+		var o2 *obs
+		for o2 == nil {
+			select {
+			case o2 = <-d2:
+			case <-time.After(20 * time.Millisecond):
+				if len(blockedIn(allStacks(), "config.(*safe).GetAsBool.func1")) > 0 {
+					w.b.Count("overlap_second_waited_for_refresh", 1)
+					goto released
+				}
+			}
+		}
+		w.b.Count("overlap_second_completed_during_refresh", 1)
+	released:
+		close(release)
+		w.keyEvMu.Lock()
+		w.onRefetch = nil
+		w.keyEvMu.Unlock()
+		if o2 == nil {
+			select {
+			case o2 = <-d2:
+			case <-time.After(60 * time.Second):
+				return errInconclusive("overlap: second request did not return within 60s after the first was released")
+			}
+		}
+		var o1 *obs
+		select {
+		case o1 = <-d1:
+		case <-time.After(60 * time.Second):
+			return errInconclusive("overlap: first request did not return within 60s after its release")
+		}
+		jj := &judge{w: w, b: j.b, logLevel: j.logLevel}
+		jj.replay = func(*reqSpec) any { return tableReplay{Mode: "overlap", CredTag: "none"} }
+		w.b.Count("table_cells_planned", 2)
+		w.b.Count("table_cells_done", 2)
+		jj.check(sp2, e2, o2)
+		jj.check(sp1, e1, o1)
+		j.b.Count("overlap_rounds", 1)
+		j.b.DistinctS(fmt.Sprintf("overlap|%d|%d|%s|%s|%s|%s", cs.Shard, round, t1.Path, mv1.Method, t2.Path, mv2.Method))
 	}
 	return nil
 }
